@@ -9,7 +9,7 @@
 //
 //   d <r|s> <hex stream>
 //     -> events separated by spaces:
-//        M:<start>:<headEnd>:<end>:<kind>:cl=<n|->:ncl=<count of Content-Length entries>:te=<0|1>:v=<maj>.<min>:m=<method hex>
+//        M:<start>:<headEnd>:<end>:<kind>:cl=<n|->:ncl=<count of Content-Length entries>:te=<0|1>:v=<maj>.<min>:m=<method hex>:u=<target hex>:ck=<Adler-32 of the body>
 //             kind = none | cl | ch<decoded length>       (a request that clientProcessRequest hands to doCallouts())
 //        and one final event
 //        end                  the buffer is empty
@@ -60,6 +60,12 @@ static std::string hex(const char *p, size_t n) {
     std::string r;
     for (size_t i = 0; i < n; ++i) { const unsigned char c = p[i]; r.push_back(d[c >> 4]); r.push_back(d[c & 15]); }
     return r;
+}
+
+static unsigned adler(const char *p, size_t n) {
+    unsigned a = 1, b = 0;
+    for (size_t i = 0; i < n; ++i) { a = (a + static_cast<unsigned char>(p[i])) % 65521u; b = (b + a) % 65521u; }
+    return (b << 16) | a;
 }
 
 static int countEntries(const HttpHeader &hdr, Http::HdrType id) {
@@ -125,6 +131,7 @@ static std::string delimit(const bool relaxed, const std::string &stream) {
         const auto chunked = request->header.chunked();
         const bool expectBody = chunked || request->content_length > 0;
         std::string kind = "none";
+        unsigned ck = 1; // Adler-32 of the body bytes handed to the body pipe so far
         bool incomplete = false, chunkError = false;
         if (expectBody) {
             if (!chunked) {
@@ -132,8 +139,10 @@ static std::string delimit(const bool relaxed, const std::string &stream) {
                 const uint64_t want = static_cast<uint64_t>(request->content_length);
                 const uint64_t have = inBuf.length();
                 kind = "cl";
-                if (have < want) { incomplete = true; inBuf.consume(inBuf.length()); }
-                else inBuf.consume(static_cast<SBuf::size_type>(want));
+                const auto putSize = static_cast<SBuf::size_type>(have < want ? have : want);
+                ck = adler(inBuf.rawContent(), putSize);
+                if (have < want) incomplete = true;
+                if (putSize) inBuf.consume(putSize);
             } else {
                 // ConnStateData::handleChunkedRequestBody with an unbounded pipe buffer
                 Http1::TeChunkedParser bodyParser;
@@ -150,6 +159,7 @@ static std::string delimit(const bool relaxed, const std::string &stream) {
                     chunkError = true;
                 }
                 kind = "ch" + std::to_string(static_cast<long long>(mb.contentSize()));
+                ck = adler(mb.content(), mb.contentSize());
                 bodyParser.setPayloadBuffer(nullptr);
                 mb.clean();
                 if (!chunkError && !parsed) {
@@ -165,7 +175,9 @@ static std::string delimit(const bool relaxed, const std::string &stream) {
         desc << ":ncl=" << countEntries(request->header, Http::HdrType::CONTENT_LENGTH)
              << ":te=" << (request->header.has(Http::HdrType::TRANSFER_ENCODING) ? 1 : 0)
              << ":v=" << ver.major << '.' << ver.minor
-             << ":m=" << hex(hp->method().image().rawContent(), hp->method().image().length());
+             << ":m=" << hex(hp->method().image().rawContent(), hp->method().image().length())
+             << ":u=" << hex(hp->requestUri().rawContent(), hp->requestUri().length())
+             << ":ck=" << ck;
         if (incomplete) { sep(); out << "body:" << start << ':' << headEnd << ':' << desc.str(); break; }
         const size_t end = total - inBuf.length();
         sep(); out << "M:" << start << ':' << headEnd << ':' << end << ':' << desc.str();
